@@ -293,7 +293,7 @@ def core_named(phi):
 
 SUBCHECKS = [
     Sub("bn_conversions", check_bn, strategy=lambda tier: bn_case(), n={"quick": 150, "thorough": 2500},
-        shards={"quick": 6, "thorough": 16}, doc="BayesianNetwork.to_markov_model (moral graph, joint, Z=1) and to_junction_tree (clique-tree validity, joint, state names)"),
+        shards={"quick": 6, "thorough": 16}, fuzz={"thorough": (2, 300)}, doc="BayesianNetwork.to_markov_model (moral graph, joint, Z=1) and to_junction_tree (clique-tree validity, joint, state names)"),
     Sub("mn_conversions", check_mn, strategy=lambda tier: mn_case(), n={"quick": 250, "thorough": 4000},
         shards={"quick": 8, "thorough": 16}, doc="MarkovNetwork/FactorGraph conversions: to_factor_graph round trip, to_markov_model, to_junction_tree validity, triangulate under H1-H6/explicit order"),
 ]
